@@ -13,7 +13,7 @@ from ..model import qual
 from ..symx import Expander, CmpV
 from ..anf import R
 from .. import anf, trip
-from .common import struct_ob, formula_ob, guard
+from .common import struct_ob, formula_ob, guard, U
 from ..report import AnalysisError
 from . import C03, C15
 
@@ -31,19 +31,19 @@ def worker_table(prog):
     table = {}
     taskvar = None
     for n in ast.walk(tp):
-        if isinstance(n, ast.Assign) and isinstance(n.value, ast.Subscript) and ast.unparse(n.value) == "D['task']":
+        if isinstance(n, ast.Assign) and isinstance(n.value, ast.Subscript) and U(n.value) == "D['task']":
             taskvar = n.targets[0].id
     if taskvar is None:
         raise AnalysisError("anchor vanished: task dispatch variable in tempering_process")
 
     def branches(node):
-        if isinstance(node, ast.If) and isinstance(node.test, ast.Compare) and ast.unparse(node.test.left) == taskvar \
+        if isinstance(node, ast.If) and isinstance(node.test, ast.Compare) and U(node.test.left) == taskvar \
                 and isinstance(node.test.comparators[0], ast.Constant):
             yield node.test.comparators[0].value, node.body
             for o in node.orelse:
                 yield from branches(o)
     top = [s for s in ast.walk(tp) if isinstance(s, ast.If) and isinstance(s.test, ast.Compare)
-           and ast.unparse(s.test.left) == taskvar]
+           and U(s.test.left) == taskvar]
     if not top:
         raise AnalysisError("anchor vanished: task branches in tempering_process")
     first = min(top, key=lambda s: s.lineno)
@@ -51,16 +51,16 @@ def worker_table(prog):
         keys, sends, calls = set(), [], []
         for st in body:
             for n in ast.walk(st):
-                if isinstance(n, ast.Subscript) and ast.unparse(n.value) == "D" and isinstance(n.slice, ast.Constant):
+                if isinstance(n, ast.Subscript) and U(n.value) == "D" and isinstance(n.slice, ast.Constant):
                     keys.add(n.slice.value)
-                if isinstance(n, ast.Call) and ast.unparse(n.func) == f"{conn}.send":
+                if isinstance(n, ast.Call) and U(n.func) == f"{conn}.send":
                     sends.append(n)
                 if isinstance(n, ast.Call) and isinstance(n.func, ast.Attribute) and isinstance(n.func.value, ast.Name) \
                         and n.func.value.id == chain:
                     calls.append(n.func.attr)
         # replies must not sit inside a conditional / loop of the branch (constant count on every path)
         conditional = any(isinstance(st, (ast.If, ast.For, ast.While)) and any(
-            isinstance(n, ast.Call) and ast.unparse(n.func) == f"{conn}.send" for n in ast.walk(st)) for st in body)
+            isinstance(n, ast.Call) and U(n.func) == f"{conn}.send" for n in ast.walk(st)) for st in body)
         table[task] = {"keys": keys, "replies": len(sends), "conditional_reply": conditional, "calls": calls, "body": body}
     return tp, table
 
@@ -81,7 +81,7 @@ def parent_events(prog, ci, fn, wtable, depth=2):
         return "?"
 
     def over_connections(it):
-        return ast.unparse(it) == "self.connections"
+        return U(it) == "self.connections"
 
     def visit(stmts):
         for st in stmts:
@@ -91,21 +91,21 @@ def parent_events(prog, ci, fn, wtable, depth=2):
             # loop / comprehension over all pipes
             loops = []
             if isinstance(st, ast.For) and over_connections(st.iter):
-                loops.append((ast.unparse(st.target), st.body))
+                loops.append((U(st.target), st.body))
             for n in ast.walk(st) if not isinstance(st, (ast.For, ast.If, ast.While)) else []:
                 if isinstance(n, (ast.ListComp, ast.GeneratorExp)) and over_connections(n.generators[0].iter):
-                    loops.append((ast.unparse(n.generators[0].target), [ast.Expr(n.elt)]))
+                    loops.append((U(n.generators[0].target), [ast.Expr(n.elt)]))
             for pipe, body in loops:
                 for b in body:
                     for n in ast.walk(b):
-                        if isinstance(n, ast.Call) and ast.unparse(n.func) == f"{pipe}.send":
+                        if isinstance(n, ast.Call) and U(n.func) == f"{pipe}.send":
                             ev.append(("send_all", task_of(n.args[0]), st.lineno))
                             handled = True
-                        if isinstance(n, ast.Call) and ast.unparse(n.func) == f"{pipe}.recv":
+                        if isinstance(n, ast.Call) and U(n.func) == f"{pipe}.recv":
                             ev.append(("recv_all", "", st.lineno))
                             handled = True
                         if isinstance(n, ast.Call) and isinstance(n.func, ast.Attribute) and n.func.attr in ("poll", "wait"):
-                            ev.append(("poll", ast.unparse(n), st.lineno))
+                            ev.append(("poll", U(n), st.lineno))
             if handled:
                 continue
             if isinstance(st, (ast.For, ast.While)):
@@ -122,12 +122,12 @@ def parent_events(prog, ci, fn, wtable, depth=2):
                 continue
             for n in ast.walk(st):
                 if isinstance(n, ast.Call):
-                    f = ast.unparse(n.func)
+                    f = U(n.func)
                     if isinstance(n.func, ast.Attribute) and n.func.attr == "send" and isinstance(n.func.value, ast.Subscript) \
-                            and ast.unparse(n.func.value.value) == "self.connections":
-                        ev.append(("send_one", ast.unparse(n.func.value.slice), task_of(n.args[0]), st.lineno))
+                            and U(n.func.value.value) == "self.connections":
+                        ev.append(("send_one", U(n.func.value.slice), task_of(n.args[0]), st.lineno))
                     elif isinstance(n.func, ast.Attribute) and n.func.attr == "recv":
-                        ev.append(("recv_one", ast.unparse(n.func.value), st.lineno))
+                        ev.append(("recv_one", U(n.func.value), st.lineno))
                     elif isinstance(n.func, ast.Attribute) and n.func.attr in ("poll", "wait"):
                         ev.append(("poll", f, st.lineno))
                     elif f.startswith("self.") and depth > 0:
@@ -220,9 +220,9 @@ def run(prog, tier):
     for fn in pt.methods.values():
         for n in ast.walk(fn):
             if isinstance(n, ast.Call) and isinstance(n.func, ast.Attribute) and n.func.attr in ("poll", "wait", "recv_bytes"):
-                polls.append((fn.name, ast.unparse(n), n.lineno))
+                polls.append((fn.name, U(n), n.lineno))
             if isinstance(n, ast.Call) and isinstance(n.func, ast.Attribute) and n.func.attr == "recv" and n.keywords:
-                polls.append((fn.name, ast.unparse(n), n.lineno))
+                polls.append((fn.name, U(n), n.lineno))
     obs.append(struct_ob("kahn-discipline", f"{mi.name}.ParallelTempering", not polls,
                          f"the parent must use only blocking recv() in pipe order; found {polls}", REL, pt.node.lineno,
                          slots={"methods": len(pt.methods)}))
@@ -231,16 +231,16 @@ def run(prog, tier):
     conn = tp.args.args[1].arg
     okw, why = True, []
     for n in ast.walk(tp):
-        if isinstance(n, ast.Call) and ast.unparse(n.func) == f"{conn}.poll":
+        if isinstance(n, ast.Call) and U(n.func) == f"{conn}.poll":
             pass
     inner = [w for w in ast.walk(tp) if isinstance(w, ast.While)]
     poll_ifs = [i for i in ast.walk(tp) if isinstance(i, ast.If) and isinstance(i.test, ast.Call)
-                and ast.unparse(i.test.func) == f"{conn}.poll"]
+                and U(i.test.func) == f"{conn}.poll"]
     if len(poll_ifs) != 1:
         okw = False
         why.append(f"{len(poll_ifs)} poll sites")
     else:
-        body = [ast.unparse(s) for s in poll_ifs[0].body]
+        body = [U(s) for s in poll_ifs[0].body]
         if body != [f"D = {conn}.recv()", "break"]:
             okw = False
             why.append(f"poll branch does {body}")
@@ -248,7 +248,7 @@ def run(prog, tier):
             okw = False
             why.append("poll has no timeout: the shutdown event would never be re-checked")
         enclosing = [w for w in inner if any(x is poll_ifs[0] for x in ast.walk(w))]
-        if not enclosing or not all(ast.unparse(w.test) == f"not {end}.is_set()" for w in enclosing):
+        if not enclosing or not all(U(w.test) == f"not {end}.is_set()" for w in enclosing):
             okw = False
             why.append("poll is not inside `while not end.is_set()` loops")
     free = {n.id for st in tp.body for n in ast.walk(st) if isinstance(n, ast.Name) and isinstance(n.ctx, ast.Load)}
@@ -275,7 +275,7 @@ def run(prog, tier):
     c, padv = prog.method("ParallelTempering", "advance")
 
     def w_ts(n, ex, env):
-        if ast.unparse(n.func) == "self.take_steps" and len(n.args) == 1:
+        if U(n.func) == "self.take_steps" and len(n.args) == 1:
             return ex.need_r(ex.eval(n.args[0], env))
         return None
     o = C15._trip(prog, c, padv, w_ts, padv.args.args[1].arg, "steps per chain (sum of take_steps arguments)")
@@ -290,27 +290,27 @@ def run(prog, tier):
     kinds = [(e[0], e[1]) for e in ev if e[0] in ("send_all", "recv_all")]
     ret = [s for s in rc.body if isinstance(s, ast.Return)]
     ok = kinds == [("send_all", "send_chain"), ("recv_all", "")] and len(ret) == 1 \
-        and "recv()" in ast.unparse(ret[0].value) and "self.connections" in ast.unparse(ret[0].value)
+        and "recv()" in U(ret[0].value) and "self.connections" in U(ret[0].value)
     obs.append(struct_ob("collect-shutdown", qual(c, rc), ok,
                          f"return_chains must request the chain on every pipe and return what every pipe sends back, in "
                          f"pipe order; events {kinds}", REL, rc.lineno))
     ok = wtable.get("send_chain", {}).get("replies") == 1 and any(
-        ast.unparse(s) == f"{conn}.send({tp.args.args[0].arg})" for s in wtable.get("send_chain", {}).get("body", []))
+        U(s) == f"{conn}.send({tp.args.args[0].arg})" for s in wtable.get("send_chain", {}).get("body", []))
     obs.append(struct_ob("collect-shutdown", f"{mi.name}.tempering_process[send_chain]", ok,
                          "the worker must reply to send_chain with its chain object", REL, tp.lineno))
     c, sd = prog.method("ParallelTempering", "shutdown")
-    body = [ast.unparse(s) for s in sd.body
+    body = [U(s) for s in sd.body
             if not (isinstance(s, ast.Expr) and isinstance(s.value, ast.Constant) and isinstance(s.value.value, str))]
     ok = len(body) == 2 and body[0] == "self.shutdown_evt.set()" and "join()" in body[1] and "self.processes" in body[1]
     # the worker's outer loop re-checks the event after the read loop
     outer = [w for w in tp.body if isinstance(w, ast.While)]
-    ok2 = len(outer) == 1 and ast.unparse(outer[0].test) == f"not {end}.is_set()" and any(
-        isinstance(s, ast.If) and ast.unparse(s.test) == f"{end}.is_set()" and any(isinstance(b, ast.Break) for b in s.body)
+    ok2 = len(outer) == 1 and U(outer[0].test) == f"not {end}.is_set()" and any(
+        isinstance(s, ast.If) and U(s.test) == f"{end}.is_set()" and any(isinstance(b, ast.Break) for b in s.body)
         for s in outer[0].body)
     # the event handed to each worker is the one shutdown() sets
     init = pt.methods["__init__"]
-    ok3 = any(isinstance(n, ast.Call) and ast.unparse(n.func) == "Process" and "self.shutdown_evt" in ast.unparse(n)
-              and "tempering_process" in ast.unparse(n) for n in ast.walk(init))
+    ok3 = any(isinstance(n, ast.Call) and U(n.func) == "Process" and "self.shutdown_evt" in U(n)
+              and "tempering_process" in U(n) for n in ast.walk(init))
     obs.append(struct_ob("collect-shutdown", qual(c, sd), ok and ok2 and ok3,
                          f"shutdown must set the event every worker re-checks and join every process; body {body}; "
                          f"worker re-check {ok2}; event passed to workers {ok3}", REL, sd.lineno))
@@ -345,7 +345,7 @@ def quantified_membership(node):
     if len(g.generators) != 1 or g.generators[0].ifs or not isinstance(g.generators[0].target, ast.Name):
         return None
     var = g.generators[0].target.id
-    A = ast.unparse(g.generators[0].iter)
+    A = U(g.generators[0].iter)
     e = g.elt
     ineg = False
     while isinstance(e, ast.UnaryOp) and isinstance(e.op, ast.Not):
@@ -355,7 +355,7 @@ def quantified_membership(node):
         return None
     if isinstance(e.ops[0], ast.NotIn):
         ineg = not ineg
-    l, r = ast.unparse(e.left), ast.unparse(e.comparators[0])
+    l, r = U(e.left), U(e.comparators[0])
     if l == var:
         B = r
     elif r == var:
@@ -386,49 +386,49 @@ def _pair_disjoint(prog):
     ok, why = False, "sampling loop not found"
     if len(loops) == 1:
         w = loops[0]
-        src = {ast.unparse(s.targets[0]): s.value for s in w.body if isinstance(s, ast.Assign)}
-        chosen = [k for k, v in src.items() if isinstance(v, ast.Call) and ast.unparse(v.func) == "choice"]
+        src = {U(s.targets[0]): s.value for s in w.body if isinstance(s, ast.Assign)}
+        chosen = [k for k, v in src.items() if isinstance(v, ast.Call) and U(v.func) == "choice"]
         filt = [v for k, v in src.items() if isinstance(v, ast.ListComp)]
         if len(chosen) == 1 and len(filt) == 1 and len(filt[0].generators) == 1 and len(filt[0].generators[0].ifs) == 1:
             g = filt[0].generators[0]
-            cand = ast.unparse(g.target)
-            pool = ast.unparse(g.iter)
-            same_pool = ast.unparse(src[chosen[0]].args[0]) == pool and ast.unparse(filt[0].elt) == cand
+            cand = U(g.target)
+            pool = U(g.iter)
+            same_pool = U(src[chosen[0]].args[0]) == pool and U(filt[0].elt) == cand
             q = quantified_membership(g.ifs[0])
             ok = same_pool and says_disjoint(q, chosen[0], cand)
-            why = f"candidates kept when `{ast.unparse(g.ifs[0])}` (chosen pair `{chosen[0]}`, candidate `{cand}`)"
-            appended = any(isinstance(n, ast.Call) and ast.unparse(n.func).endswith(".append")
-                           and ast.unparse(n.args[0]) == chosen[0] for n in ast.walk(w))
+            why = f"candidates kept when `{U(g.ifs[0])}` (chosen pair `{chosen[0]}`, candidate `{cand}`)"
+            appended = any(isinstance(n, ast.Call) and U(n.func).endswith(".append")
+                           and U(n.args[0]) == chosen[0] for n in ast.walk(w))
             ok = ok and appended
     out.append(struct_ob("pair-disjoint", qual(c, tp) + "[filter]", ok,
                          "after a pair is drawn every remaining candidate that shares a chain with it must be discarded "
                          "(kept iff disjoint from the drawn pair): " + why, REL, tp.lineno))
     # (b) leftovers are the chains in no drawn pair, paired by even/odd positions
     ok, why = False, "leftover pairing not found"
-    lo = [s for s in ast.walk(tp) if isinstance(s, ast.Assign) and ast.unparse(s.targets[0]) == "leftovers"]
+    lo = [s for s in ast.walk(tp) if isinstance(s, ast.Assign) and U(s.targets[0]) == "leftovers"]
     if len(lo) == 1 and isinstance(lo[0].value, ast.ListComp) and len(lo[0].value.generators[0].ifs) == 1:
         g = lo[0].value.generators[0]
         q = quantified_membership(g.ifs[0])
-        i = ast.unparse(g.target)
-        c1 = ast.unparse(g.iter) == "range(self.N_chains)" and ast.unparse(lo[0].value.elt) == i
+        i = U(g.target)
+        c1 = U(g.iter) == "range(self.N_chains)" and U(lo[0].value.elt) == i
         # not any(i in p for p in sample)
         c2 = q is not None and q[0] and q[1] == "any" and not q[2] and q[3] == "sample" and q[4] == "*" + i
-        c3 = "zip(leftovers[::2], leftovers[1::2])" in ast.unparse(tp)
+        c3 = "zip(leftovers[::2], leftovers[1::2])" in U(tp)
         ok = c1 and c2 and c3
-        why = f"leftovers: `{ast.unparse(lo[0].value)}`; even/odd zip: {c3}"
+        why = f"leftovers: `{U(lo[0].value)}`; even/odd zip: {c3}"
     out.append(struct_ob("pair-disjoint", qual(c, tp) + "[leftovers]", ok,
                          "chains left unpaired must be exactly those in no drawn pair and be paired by even/odd positions: " + why,
                          REL, tp.lineno))
     # (c) uniform_pairs: even/odd positions of a shuffled arange
     c2_, up = prog.method("ParallelTempering", "uniform_pairs")
-    txt = [ast.unparse(s) for s in up.body if not (isinstance(s, ast.Expr) and isinstance(s.value, ast.Constant))]
+    txt = [U(s) for s in up.body if not (isinstance(s, ast.Expr) and isinstance(s.value, ast.Constant))]
     ok = txt == ["proposed_swaps = arange(self.N_chains)", "self.rng.shuffle(proposed_swaps)",
                  "return [p for p in zip(proposed_swaps[::2], proposed_swaps[1::2])]"]
     out.append(struct_ob("pair-disjoint", qual(c2_, up), ok,
                          f"uniform pairs must be the even/odd positions of a shuffled arange(N_chains): {txt}", REL, up.lineno))
     # (d) swap() takes its pairs from one of the checked generators, once, after the snapshot
     c3_, sw = prog.method("ParallelTempering", "swap")
-    srcs = [ast.unparse(s.value) for s in sw.body if isinstance(s, ast.Assign) and ast.unparse(s.targets[0]) == "proposed_swaps"]
+    srcs = [U(s.value) for s in sw.body if isinstance(s, ast.Assign) and U(s.targets[0]) == "proposed_swaps"]
     ok = len(srcs) == 1 and srcs[0] in ("self.tight_pairs()", "self.uniform_pairs()")
     out.append(struct_ob("pair-disjoint", qual(c3_, sw) + "[source]", ok,
                          f"swap must take its proposed pairs from tight_pairs() or uniform_pairs(): {srcs}", REL, sw.lineno))
@@ -455,7 +455,7 @@ def _swap_form(prog, mi, pt, c, sw):
     draw_cmp = test.test
     shortcuts = []
     if isinstance(test.test, ast.BoolOp) and isinstance(test.test.op, ast.Or):
-        with_draw = [v for v in test.test.values if "rng.random" in ast.unparse(v)]
+        with_draw = [v for v in test.test.values if "rng.random" in U(v)]
         if len(with_draw) == 1:
             draw_cmp = with_draw[0]
             shortcuts = [v for v in test.test.values if v is not draw_cmp]
@@ -472,10 +472,10 @@ def _swap_form(prog, mi, pt, c, sw):
         out.append(formula_ob("swap-form", qual(c, sw), got, want, REL, test.lineno,
                               what="log of the exchange acceptance probability"))
         out.append(struct_ob("swap-form", qual(c, sw) + "[orientation]", is_draw,
-                             f"the accept edge must be taken when uniform <= A; test is `{ast.unparse(test.test)}`",
+                             f"the accept edge must be taken when uniform <= A; test is `{U(test.test)}`",
                              REL, test.lineno))
         for sc in shortcuts:
-            oks, whys = False, f"`{ast.unparse(sc)}` is not a comparison"
+            oks, whys = False, f"`{U(sc)}` is not a comparison"
             if isinstance(sc, ast.Compare) and len(sc.ops) == 1:
                 l = guard(lambda: ex.eval(sc.left, env))
                 r_ = guard(lambda: ex.eval(sc.comparators[0], env))
@@ -483,28 +483,28 @@ def _swap_form(prog, mi, pt, c, sw):
                 if isinstance(l, R) and isinstance(r_, R) and opn in ("Gt", "GtE", "Lt", "LtE"):
                     d = (l - r_) if opn in ("Gt", "GtE") else (r_ - l)       # shortcut  <=>  d >= 0
                     oks = d.eq(got) or d.eq(A - 1)
-                    whys = f"shortcut `{ast.unparse(sc)}` means {d} >= 0, but log A = {got}"
+                    whys = f"shortcut `{U(sc)}` means {d} >= 0, but log A = {got}"
             out.append(struct_ob("swap-form", qual(c, sw) + "[shortcut]", oks,
                                  "an unconditional exchange must imply A >= 1 for every temperature ladder: " + whys,
                                  REL, test.lineno))
     else:
         out.append(struct_ob("swap-form", qual(c, sw), False,
-                             f"acceptance test `{ast.unparse(test.test)}` is not `uniform <= A`", REL, test.lineno))
+                             f"acceptance test `{U(test.test)}` is not `uniform <= A`", REL, test.lineno))
         out.append(struct_ob("swap-form", qual(c, sw) + "[orientation]", False, "see above", REL, test.lineno))
     # counters
-    att = [s for s in ast.walk(sw) if isinstance(s, ast.AugAssign) and ast.unparse(s.target).startswith("self.attempted_swaps")]
-    suc = [s for s in ast.walk(test) if isinstance(s, ast.AugAssign) and ast.unparse(s.target).startswith("self.successful_swaps")]
+    att = [s for s in ast.walk(sw) if isinstance(s, ast.AugAssign) and U(s.target).startswith("self.attempted_swaps")]
+    suc = [s for s in ast.walk(test) if isinstance(s, ast.AugAssign) and U(s.target).startswith("self.successful_swaps")]
     okc = False
     why = ""
     if len(att) == 1 and len(suc) == 1:
         # attempted: inside a loop over the same pair list, indexed by the pair, += 1
         att_loop = [l for l in sw.body if isinstance(l, ast.For) and any(x is att[0] for x in ast.walk(l))]
-        okc = (len(att_loop) == 1 and ast.unparse(att_loop[0].iter) == ast.unparse(loop.iter)
-               and ast.unparse(att[0].target) == f"self.attempted_swaps[{ast.unparse(att_loop[0].target)}]"
-               and ast.unparse(att[0].value) == "1" and isinstance(att[0].op, ast.Add)
-               and ast.unparse(suc[0].target) == f"self.successful_swaps[{i}, {j}]"
-               and ast.unparse(suc[0].value) == "1" and isinstance(suc[0].op, ast.Add))
-        why = f"attempted: `{ast.unparse(att[0])}`; successful: `{ast.unparse(suc[0])}`"
+        okc = (len(att_loop) == 1 and U(att_loop[0].iter) == U(loop.iter)
+               and U(att[0].target) == f"self.attempted_swaps[{U(att_loop[0].target)}]"
+               and U(att[0].value) == "1" and isinstance(att[0].op, ast.Add)
+               and U(suc[0].target) == f"self.successful_swaps[{i}, {j}]"
+               and U(suc[0].value) == "1" and isinstance(suc[0].op, ast.Add))
+        why = f"attempted: `{U(att[0])}`; successful: `{U(suc[0])}`"
     out.append(struct_ob("swap-form", qual(c, sw) + "[counters]", okc,
                          "attempted must be incremented once per proposed pair and successful once per accepted pair, on the "
                          "same index pair: " + why, REL, sw.lineno))
